@@ -454,6 +454,23 @@ class TransformationInstructionsGenerator:
         transformations.append(trans_rule)
     if producer_trans_rule.consumers:
       transformations.insert(0, producer_trans_rule)
+    elif (
+        not consumer_trans_rules
+        and producer_trans_rule.transformation
+        == qtyping.QuantTransformation.ADD_DEQUANTIZE
+    ):
+      # Nobody reads the tensor (e.g. an unused result of a split): there is
+      # nothing to dequantize for, but the quantized producer still writes a
+      # quantized tensor.
+      transformations.append(
+          qtyping.TransformationInst(
+              qtyping.QuantTransformation.QUANTIZE_TENSOR,
+              producer_trans_rule.tensor_id,
+              producer_trans_rule.producer,
+              [],
+              producer_trans_rule.parameters,
+          )
+      )
     return transformations
 
   def _quant_params_to_transformation_insts(
